@@ -44,7 +44,7 @@ P = {
          "Uniform line width >=1 per record, terminator LF or CRLF."),
  "C13": ("proptest generated records -> writer -> reader round trip per dialect; malformed-line injection and byte corruption vs. independent strict line parser",
          "Round trips of BED (0-9 aux columns) and GFF3/GFF2/GTF2 with multi-valued attributes; per-line strict-parser oracle for injected malformed lines, corruption and truncation.",
-         "Keys/values avoid the dialect's delimiters, quotes, tabs and newlines."),
+         "Keys/values avoid the dialect's delimiters, quotes, tabs and newlines. Thorough adds a libFuzzer campaign (target tabular: bytes through the BED reader and the three GFF dialect readers, strict line parser as oracle)."),
  "C14": ("proptest generated models/observations vs. enumeration of all S^T state paths in f64",
          "Viterbi/forward/backward compared with the path-max / path-sum definition over all state paths, including exact zeros, ties, sub-stochastic rows and explicit end probabilities.",
          "Tolerance: Viterbi 1e-9 relative, likelihood 1e-3 relative (fast-exponential accuracy)."),
